@@ -116,8 +116,20 @@ theorem c09_endif_ends_group (fuel level : Nat) (post : List Nat) :
     skipGroup (fuel + 1) level ⟨some 35, true, [105, 102, 32, 49, 10] ++ post⟩ = skipGroup fuel (level + 1) ⟨some 10, true, post⟩ :=
   ⟨skipGroup_endif fuel post, skipGroup_endif_nested fuel level post, skipGroup_if_nested fuel level post⟩
 
+open IgVerif.Skip in
+/-- **`#else` ends the skipped group only at its own level, and only a `#` that begins its line is
+a directive**: at nesting level 0 `#else` ends the group; inside a nested conditional it is passed
+over with the level unchanged; a `#` in the middle of a line is ordinary text. -/
+theorem c09_else_and_midline_hash (fuel level : Nat) (post : List Nat) :
+    skipGroup (fuel + 1) 0 ⟨some 35, true, [101, 108, 115, 101, 10] ++ post⟩ = (.els, ⟨some 10, true, post⟩) ∧
+    skipGroup (fuel + 1) (level + 1) ⟨some 35, true, [101, 108, 115, 101, 10] ++ post⟩ = skipGroup fuel (level + 1) ⟨some 10, true, post⟩ ∧
+    skipGroup (fuel + 1) level ⟨some 35, false, post⟩ = skipGroup fuel level (skipComment (post.length + 1) (get false post)) :=
+  ⟨skipGroup_else fuel post, skipGroup_else_nested fuel level post, skipGroup_hash_midline fuel level post⟩
+
 -- `"/*"` in a skipped group used to swallow the `#endif`; `#` alone on a line used to take the next line
 example : (Skip.skipFalseIfBlock (Skip.word "s = \"/*\";\n#endif\nint k;\n")).1 = .endif := by decide
 example : (Skip.skipFalseIfBlock (Skip.word "#\nendif\nint lost;\n#endif\nint k;\n")).2.rest = Skip.word "int k;\n" := by decide
+-- a nested #if … #else … #endif inside the skipped group, then the group's own #else; `x # endif` is text
+example : (Skip.skipFalseIfBlock [35, 105, 102, 32, 49, 10, 35, 101, 108, 115, 101, 10, 35, 101, 110, 100, 105, 102, 10, 120, 32, 35, 32, 101, 110, 100, 105, 102, 10, 35, 101, 108, 115, 101, 10, 107]).1 = .els := by decide
 
 end IgVerif.C09
